@@ -9,10 +9,10 @@ UNIT = {
     "items": [
         {"kind": "fn", "file": "bindgen/codegen/helpers.rs", "name": "raw_type", "ret": "r",
          "subst": [("syn::Type", "Tok", 1, "R4"),
-                   ("match ctx.options().ctypes_prefix {", "match *ctx.ctypes_prefix() {", 1, "R5 field read"),
+                   ("match ctx.options().ctypes_prefix {", "match *ctx.ctypes_prefix() {", 0, "R5 field read (if present)"),
                    ("TokenStream::from_str(prefix.as_str()).unwrap()", "prefix_tokens(prefix.as_str())", 1, "R4"),
                    ("syn::parse_quote! { #prefix::#ident }", "q_prefixed(&prefix, &ident)", 1, "R4"),
-                   ("ctx.options().use_core", "ctx.use_core()", 1, "R5 field read"),
+                   ("ctx.options().use_core", "ctx.use_core()", 0, "R5 field read (if present)"),
                    ("syn::parse_quote! { ::core::ffi::#ident }", "q_core_ffi(&ident)", 1, "R4"),
                    ("syn::parse_quote! { ::std::os::raw::#ident }", "q_std_os_raw(&ident)", 1, "R4")],
          "ensures": [
